@@ -30,6 +30,9 @@ type scen struct {
 	rbuf   int
 	mode   bytepipe.Mode
 	endErr bool // underlying stream ends with an error instead of EOF
+	// lastWithErr: the underlying Read hands over the final bytes together
+	// with the end error (n > 0 and err != nil in one call)
+	lastWithErr bool
 }
 
 func stream(writes []int) []byte {
@@ -46,7 +49,7 @@ func stream(writes []int) []byte {
 
 func body(sc scen) func() {
 	return func() {
-		pipe := &bytepipe.Pipe{Mode: sc.mode}
+		pipe := &bytepipe.Pipe{Mode: sc.mode, ErrWithLastData: sc.lastWithErr}
 		back := &bytepipe.Pipe{}
 		ctx, cancel := context.WithCancel(context.Background())
 		defer cancel()
@@ -95,6 +98,9 @@ func body(sc scen) func() {
 			vsync.Logf("end never")
 		})
 		wg.Wait()
+		if pipe.DataWithErr > 0 {
+			vsync.Logf("underlying read returned data together with the end error")
+		}
 		_ = rd.Close()
 		_ = wr.Close()
 		cancel()
@@ -184,22 +190,25 @@ func trunc(b []byte) []byte {
 
 func scenarios(quick bool) []scen {
 	s := []scen{
-		{"w1,3,5/buf4096/explore", []int{1, 3, 5}, 4096, bytepipe.Explore, false},
-		{"w5,3/buf4/explore", []int{5, 3}, 4, bytepipe.Explore, false},
-		{"w3,5/buf2/full", []int{3, 5}, 2, bytepipe.Full, false},
-		{"w5/buf1/onebyte", []int{5}, 1, bytepipe.OneByte, false},
-		{"w1,3/buf4096/explore-err", []int{1, 3}, 4096, bytepipe.Explore, true},
-		{"w3/buf2/full-err", []int{3}, 2, bytepipe.Full, true},
-		{"w2049/buf4096/full", []int{2049}, 4096, bytepipe.Full, false},
-		{"w2049/buf4096/onebyte-head", []int{2049, 1}, 4096, bytepipe.Full, false},
-		{"w5,5,5/buf4096/full", []int{5, 5, 5}, 4096, bytepipe.Full, false},
+		{"w1,3,5/buf4096/explore", []int{1, 3, 5}, 4096, bytepipe.Explore, false, false},
+		{"w5,3/buf4/explore", []int{5, 3}, 4, bytepipe.Explore, false, false},
+		{"w3,5/buf2/full", []int{3, 5}, 2, bytepipe.Full, false, false},
+		{"w5/buf1/onebyte", []int{5}, 1, bytepipe.OneByte, false, false},
+		{"w1,3/buf4096/explore-err", []int{1, 3}, 4096, bytepipe.Explore, true, false},
+		{"w3/buf2/full-err", []int{3}, 2, bytepipe.Full, true, false},
+		{"w1,3/buf4096/full/eof-with-last-data", []int{1, 3}, 4096, bytepipe.Full, false, true},
+		{"w3/buf2/full-err/err-with-last-data", []int{3}, 2, bytepipe.Full, true, true},
+		{"w5,3/buf4/explore/eof-with-last-data", []int{5, 3}, 4, bytepipe.Explore, false, true},
+		{"w2049/buf4096/full", []int{2049}, 4096, bytepipe.Full, false, false},
+		{"w2049/buf4096/onebyte-head", []int{2049, 1}, 4096, bytepipe.Full, false, false},
+		{"w5,5,5/buf4096/full", []int{5, 5, 5}, 4096, bytepipe.Full, false, false},
 	}
 	if !quick {
 		s = append(s,
-			scen{"w1,3,5/buf4/explore", []int{1, 3, 5}, 4, bytepipe.Explore, false},
-			scen{"w5,5,5/buf4096/explore-err", []int{5, 5, 5}, 4096, bytepipe.Explore, true},
-			scen{"w2049,3/buf4/full", []int{2049, 3}, 4, bytepipe.Full, false},
-			scen{"w3,1,5/buf1/full", []int{3, 1, 5}, 1, bytepipe.Full, false},
+			scen{"w1,3,5/buf4/explore", []int{1, 3, 5}, 4, bytepipe.Explore, false, false},
+			scen{"w5,5,5/buf4096/explore-err", []int{5, 5, 5}, 4096, bytepipe.Explore, true, false},
+			scen{"w2049,3/buf4/full", []int{2049, 3}, 4, bytepipe.Full, false, false},
+			scen{"w3,1,5/buf1/full", []int{3, 1, 5}, 1, bytepipe.Full, false, false},
 		)
 	}
 	return s
@@ -215,7 +224,15 @@ func TestC09(t *testing.T) {
 	scens := scenarios(run.Quick())
 	mc.RunScenarios(t, agg, len(scens), func(i int) *vsync.Config {
 		sc := scens[i]
-		return &vsync.Config{Name: sc.name, Bound: bound, Deadline: run.Deadline(), MaxStep: 20000, Body: body(sc), Check: check(sc)}
+		return &vsync.Config{Name: sc.name, Bound: bound, Deadline: run.Deadline(), MaxStep: 20000, Body: body(sc), Check: check(sc),
+			Observe: func(x *vsync.Exec) []string {
+				for _, l := range x.Log {
+					if strings.HasPrefix(l, "underlying read returned data together") {
+						return []string{l}
+					}
+				}
+				return nil
+			}}
 	}, func(v *vsync.Violation) string { return strings.Fields(v.What)[0] })
 	agg.Finish(true)
 	run.Cov["deviation_bound"] = bound
